@@ -8,7 +8,8 @@ try_move_right, `pos += n` / `pos -= n` on a position) must be selected by a bra
 way, walks the wrong way inside a lookbehind (out of bounds in the unchecked build). UNITSTEP: try_move_left /
 try_move_right count code units; outside indexing.rs they only turn the caller's offset into a position (initial_position) —
 the executors step over characters with next_*_pos / next_* — and inside indexing.rs only the one-unit-per-character indexers
-(AsciiInput, Ucs2Input) pass them a constant amount.
+(AsciiInput, Ucs2Input) pass them a constant amount. DIRBLIND: an executor helper without a direction parameter that is called from
+direction-generic code uses no stepping primitive and no byte peek of one side only (both mirror twins, as in a word-boundary test, are fine).
 
 DIRSTATE — the emitter's and the IR walkers' `in_lookbehind` flag follows a save/set/restore discipline:
 every store to a field named in_lookbehind writes either the `backwards` field of the
@@ -108,6 +109,41 @@ def check(facts):
                            "direction-generic function steps with %s unconditionally (line %s): the step ignores whether the cursor "
                            "moves forwards or backwards" % (c, line), facts.loc(fn, line))
     r.floor("direction_switches", nsw, 10)
+    # DIRBLIND: an executor helper that has no direction parameter but is called from direction-generic code (try_at_pos also runs
+    # lookbehind bodies right to left) may not look at one particular side of the cursor: no stepping primitive and no byte peek
+    # (`peek_byte_right` / `peek_byte_left`) unless it uses both mirror twins (a word-boundary style test reads both sides)
+    cg = facts.callgraph()
+    PEEKS = {"peek_byte_right": "peek_byte_left", "peek_byte_left": "peek_byte_right", "peek_right": "peek_left", "peek_left": "peek_right"}
+    nblind = 0
+    for fn in sorted(facts.body_names()):
+        if "::tests::" in fn or "{closure" in fn or not fn.startswith(("classicalbacktrack::", "pikevm::", "matchers::", "scm::", "<scm::")):
+            continue
+        b = facts.body(fn)
+        if is_dir_generic(b) or fwd_switches(b):
+            continue
+        callers = [c for c, outs in cg.items() if fn in outs and facts.has_body(c) and is_dir_generic(facts.body(c))]
+        if not callers:
+            continue
+        used = collections.Counter()
+        lines = {}
+        for bb, t in b.iter_calls():
+            last = (t.get("callee") or "").split("::")[-1]
+            if (last in PEEKS or last in MIRROR_OF) and "InputIndexer" in (t.get("callee") or ""):
+                used[last] += 1
+                lines.setdefault(last, t.get("line"))
+        if not used:
+            continue
+        nblind += 1
+        key = "%s has no direction but is called from direction-generic code" % fn
+        twin = {**PEEKS, **MIRROR_OF}
+        lonely = sorted(c for c in used if twin.get(c) not in used)
+        if lonely:
+            r.fail(key, "%s looks at one side of the cursor only (%s, line %s) and takes no direction, yet %s calls it while matching in "
+                        "either direction: inside a lookbehind the text to compare lies on the other side (`(?<=ab|cd)x` loses its "
+                        "second arm)" % (fn.split("::")[-1], ", ".join(lonely), lines[lonely[0]], callers[0].split("::")[-1]),
+                   facts.loc(fn, lines[lonely[0]]))
+        else:
+            r.ok(key, "reads both sides (%s)" % sorted(used))
     # UNITSTEP: try_move_left / try_move_right move by code *units*. Outside indexing.rs they are only used to turn the caller's
     # offset into a position (initial_position); the executors step over text with the character-aware next_*_pos / next_*.
     # Inside indexing.rs a constant amount is passed only by the single-unit-per-character indexers (AsciiInput, Ucs2Input).
